@@ -1845,6 +1845,14 @@ impl Translator {
             }
             IntrinsicOperation::ArrayGet => {
                 self.emit(st, Instr::GetIndex(Reg::Top, Reg::Top));
+                // arrays of void use dummy values
+                let SolvedType::Function(_, ret_ty) = self.get_ty(mono, func_node.clone()).unwrap()
+                else {
+                    unreachable!()
+                };
+                if *ret_ty == SolvedType::Void {
+                    self.emit(st, Instr::Pop);
+                }
             }
             IntrinsicOperation::ArraySet => {
                 self.emit(st, Instr::SetIndex(Reg::Top, Reg::Top));
